@@ -332,6 +332,8 @@ class Interp:
             return v.nonempty()
         if type(v).__name__ in ('AbsLine', 'OpaqueMatch'):
             return True
+        if type(v).__name__ == 'SCharSeq':
+            return mk_bool(T(v.n) > 0)
         if isinstance(v, Sym):
             raise EngineError(f'truth of {v!r}')
         return bool(v)
@@ -379,6 +381,20 @@ class Interp:
         from . import ext as _ext
         if isinstance(a, _ext.SByte1) or isinstance(b, _ext.SByte1):
             return _ext.bytes_eq(self, a, b)
+        if isinstance(a, _ext.SChar) or isinstance(b, _ext.SChar):
+            ch, other = (a, b) if isinstance(a, _ext.SChar) else (b, a)
+            if isinstance(other, _ext.SChar):
+                return mk_bool(T(ch.code) == T(other.code))
+            if isinstance(other, str):
+                return mk_bool(T(ch.code) == ord(other)) if len(other) == 1 else False
+            return False
+        if isinstance(a, _ext.SCharSeq) and isinstance(b, _ext.SCharSeq):
+            if a.arr.eq(b.arr) and z3.simplify(T(a.off) == T(b.off)).eq(z3.BoolVal(True)):
+                return mk_bool(T(a.n) == T(b.n))
+            k = self.ctx.fresh_int('chr')
+            return mk_bool(z3.And(T(a.n) == T(b.n), z3.ForAll([k], z3.Implies(
+                z3.And(k >= 0, k < T(a.n)),
+                z3.Select(a.arr, T(a.off) + k) == z3.Select(b.arr, T(b.off) + k)))))
         if isinstance(a, _ext.AbsFirstChar) or isinstance(b, _ext.AbsFirstChar):
             fc, lit = (a, b) if isinstance(a, _ext.AbsFirstChar) else (b, a)
             if lit == '%':
@@ -653,6 +669,8 @@ class Interp:
             from . import ext as _ext
             if isinstance(b, _ext.SByte1):
                 return _ext.bytes_add(self, a, b)
+            if isinstance(a, _ext.SCharSeq) and isinstance(b, str):
+                return a.concat(b)
             if isinstance(a, (str, XStr)) and isinstance(b, (str, XStr)):
                 if isinstance(a, str) and isinstance(b, str):
                     return a + b
@@ -1278,6 +1296,8 @@ class Interp:
             i = self.norm_index(idx, len(obj.slots))
             return self.select_chain(i, obj.slots)
         from . import ext as _ext
+        if isinstance(obj, _ext.SCharSeq):
+            return obj.getitem(self, idx)
         if isinstance(obj, _ext.AbsLine):
             if idx == 0:
                 # first character: '%' exactly for PERCENT lines (an opaque non-'%' char otherwise)
@@ -1398,6 +1418,8 @@ class Interp:
         if isinstance(obj, XStr):
             return obj.getslice(self, lo, hi, st)
         from . import ext as _ext2
+        if isinstance(obj, _ext2.SCharSeq):
+            return obj.getslice(self, lo, hi, st)
         if isinstance(obj, _ext2.AbsLine):
             from .strings import XStr as _XS
             return _XS.atom(self.ctx.fresh_name('line_part'))      # an opaque part of the line
